@@ -122,6 +122,12 @@ Definition enc_raise {A} (f : A -> sexp) (o : option A) : sexp := match o with S
 Definition enc_keys_of (now : bool) (m : pmod) : sexp :=
   SL [enc_raise enc_keys (pm_out_keys now m); enc_raise enc_key (log_prob_key_of now m);
       enc_raise enc_keys (log_prob_keys_of now m); enc_list enc_str (p_kw m); enc_keys (p_out m)].
+Definition dec_layer (s : sexp) : option layer :=
+  match s with
+  | SA "indep" => Some LIndep
+  | SL [SA "trans"; r] => option_map LTrans (dec_opt dec_itype r)
+  | _ => None
+  end.
 Definition dec_nodes (s : sexp) : option (list node) := dec_list dec_node s.
 
 Definition dispatch (cmd : string) (args : list sexp) : option sexp :=
@@ -188,6 +194,11 @@ Definition dispatch (cmd : string) (args : list sexp) : option sexp :=
                 | None => SA "init-raise"
                 end)
       | _, _, _, _, _, _, _, _, _ => None
+      end
+  | "interact-w", [it; layers; cap] =>
+      match dec_itype it, dec_list dec_layer layers, dec_dcap cap with
+      | Some it, Some ls, Some b => Some (enc_action (dist_sample_w it ls b))
+      | _, _, _ => None
       end
   | "interact", [it; lkj; hasdet; regk; support_real; mode; median; mean; has_rsample] =>
       match dec_itype it, dec_bool lkj, dec_bool hasdet, dec_opt dec_itype regk, dec_opt dec_bool support_real,
